@@ -3,6 +3,10 @@ CONSTANTS
   Ds = {0, 1, 2}
   MaxClock = 10
   W0 = 5
+  W0B = 9000000
+  Ambients = {"A"}
+  Threads = {"main"}
+  Resolution = "captured"
 SPECIFICATION SwSpec
 INVARIANT SwTypeOK
 INVARIANT SwInv
